@@ -5,10 +5,15 @@ around them and explicit accumulating loops reduce to the same description; deci
 helpers / closures / Option combinators expanded):
   R1 sibling filters  an element of self.artifacts reaches the selection step exactly when
                       artifact.os == os && artifact.arch == arch && satisfies_version(&artifact.version) &&
-                      satisfies_metadata(&artifact.metadata), in resolve and in partial_resolve alike
+                      satisfies_metadata(&artifact.metadata), in resolve and in partial_resolve alike; the filter may be
+                      a filter(..) adapter, guards of an explicit loop, or a private iterator type / from_fn closure
+                      whose hand-written next() yields exactly the passing elements of one inner iterator, in order,
+                      and ends only when that is exhausted (C18_helpers.own_iterator)
   R2 selection        resolve = max_by_key(.version), max_by(comparator) read as std's reduce table, or the equivalent
                       accumulation (first match seeds, a later element replaces unless the current one is strictly
-                      greater); partial_resolve accumulates with the table
+                      greater); the step may be a closure or a named private function and may return through private
+                      helpers and std's binary selectors (std::cmp::max_by / max_by_key / Ord::max, Option::map_or:
+                      C18_helpers.value_cases); partial_resolve accumulates with the table
                       None -> item, Some(acc) & cmp(item, acc) in {Greater, Equal} -> item, otherwise -> acc,
                       both keys being `.version`; the accumulator starts from None and the whole sequence is visited,
                       so None is returned only for an empty filtered sequence
@@ -94,15 +99,17 @@ def run(ctx, rep):
     key_item = ('field', H.ITEM, 'version')
     md = models.get(res.path)
     ok, why = False, 'selection not understood'
+    # (what is iterated and under which tests is R1's obligation and reported there; R2 is about the selection step)
+    sel_problems = [p for p in md.problems if 'iterat' not in p] if md is not None else []
     if md is not None and md.kind == 'max_by_key':
-        ok = md.key is not None and strip(md.key) == key_item and not md.problems
-        why = 'max_by_key keyed by %s%s' % (H.show(md.key) if md.key else None, ''.join('; ' + p for p in md.problems[:2]))
+        ok = md.key is not None and strip(md.key) == key_item and not sel_problems
+        why = 'max_by_key keyed by %s%s' % (H.show(md.key) if md.key else None, ''.join('; ' + p for p in sel_problems[:2]))
     elif md is not None and md.kind == 'table':
         # what std's max_by_key does: the first element seeds, a later element replaces unless the current one is greater
         uni = sorted(H.FULL_T)
         table, orient, probs = H.eval_table(md, uni)
-        ok = md.init_none and not probs and not md.problems and table == H.expected_table(uni)
-        why = 'starts from None: %s; table %s%s' % (md.init_none, H.table_str(table), ''.join('; ' + p for p in (probs + md.problems)[:3]))
+        ok = md.init_none and not probs and not sel_problems and table == H.expected_table(uni)
+        why = 'starts from None: %s; table %s%s' % (md.init_none, H.table_str(table), ''.join('; ' + p for p in (probs + sel_problems)[:3]))
     elif md is not None:
         why = 'resolve selects with %s' % md.kind
     rep.check(ok, 'R2', 'resolve/max_by_key', w(res), 'filter(..).max_by_key(|a| &a.version) (or the equivalent accumulation)', 'resolve selection: ' + why[:300])
